@@ -477,6 +477,39 @@ func Points(quick bool) []NamedPt {
 			add(fmt.Sprintf("T%d+%s", ti, m.n), ref.Add(tors[ti], ref.Mul(m.k, B)))
 		}
 	}
+	// points with a small x (and the matching p-x) and with a small y: their
+	// coordinates sit at the reduction boundary, where sign/parity handling
+	// of unreduced representations goes wrong first
+	nsmall := 3
+	if quick {
+		nsmall = 2
+	}
+	found := 0
+	for xv := int64(19); xv < 400 && found < nsmall; xv++ {
+		x := big.NewInt(xv)
+		x2 := ref.FSq(x)
+		// y^2 = (1 + x^2) / (1 - d x^2)
+		w := ref.FDiv(ref.FAdd(ref.One, x2), ref.FSub(ref.One, ref.FMul(ref.D, x2)))
+		if !ref.FIsSquare(w) {
+			continue
+		}
+		y := ref.FSqrtEven(w)
+		pt := ref.Pt{X: x, Y: y}
+		if !ref.OnCurve(pt) {
+			panic("small-x point not on curve")
+		}
+		add(fmt.Sprintf("x=%d", xv), pt)
+		add(fmt.Sprintf("x=p-%d", xv), ref.Neg(pt))
+		found++
+	}
+	found = 0
+	for yv := int64(2); yv < 400 && found < nsmall; yv++ {
+		e := ref.LE32(big.NewInt(yv))
+		if pt, ok := ref.Decode(e[:]); ok {
+			add(fmt.Sprintf("y=%d", yv), pt)
+			found++
+		}
+	}
 	pointsCache[qi] = out
 	return out
 }
